@@ -280,7 +280,7 @@ def build_lib(variant, hooks=True, jobs=16):
     for exe, parts in (("yara", ["cli/args.c", "cli/common.c", "cli/threading.c", "cli/yara.c"]),
                        ("yarac", ["cli/args.c", "cli/common.c", "cli/yarac.c"])):
         out = os.path.join(root, exe)
-        if rebuilt or not os.path.exists(out):
+        if rebuilt or not os.path.exists(out) or os.stat(out).st_mtime_ns < os.stat(lib).st_mtime_ns:
             _run([v["cc"]] + cliflags + [cli_objs[p] for p in parts] + [lib] + ld + ["-o", out])
     return info
 
@@ -301,7 +301,9 @@ def build_harness(variant, name, sources, extra_cflags=(), extra_ldflags=(), hoo
     out = os.path.join(root, name)
     ldstamp = out + ".ldstamp"
     ldkey = " ".join(list(extra_ldflags))
-    if rebuilt or not os.path.exists(out) or not os.path.exists(ldstamp) or open(ldstamp).read() != ldkey:
+    newest = max(os.stat(x).st_mtime_ns for x in objs + [info["lib"]])
+    if (rebuilt or not os.path.exists(out) or not os.path.exists(ldstamp) or open(ldstamp).read() != ldkey
+            or os.stat(out).st_mtime_ns < newest):
         _run([v["cc"]] + v["ldflags"] + objs + [info["lib"]] + ["-lcrypto", "-lm", "-lpthread"]
              + list(extra_ldflags) + ["-o", out])
         open(ldstamp, "w").write(ldkey)
